@@ -161,7 +161,7 @@ class LocationAction(object):
     def __fire_period_ns(self):
         return self.fire_period * 1_000_000
 
-    def can_trigger(self, ts):
+    def can_trigger(self, ts, claim=True):
         """
         Check if the tracepoint can trigger.
 
@@ -170,6 +170,7 @@ class LocationAction(object):
         matter how many threads reach the tracepoint while a collection is still running.
 
         :param ts: the time the tracepoint has been triggered
+        :param claim: False to only ask (nothing is claimed, e.g. before a condition is evaluated)
         :return: true, if we should collect data; else false
         """
         with self.__lock:
@@ -191,7 +192,8 @@ class LocationAction(object):
                 if other != 0 and abs(ts - other) < period:
                     return False
 
-            self.__claimed.append(ts)
+            if claim:
+                self.__claimed.append(ts)
             return True
 
     def record_triggered(self, ts):
